@@ -1,4 +1,4 @@
-import LitexModel.Csr.NumGlue
+import LitexModel.Csr.NumAuto
 open Litex Litex.Driver Litex.Csr
 
 def openMachine (args : List String) (hin hout : IO.FS.Stream) : Option (IO Bool) :=
@@ -43,6 +43,9 @@ def call (args : List String) : Option String :=
   | "like" :: ps => (parseNats ps).map callLike
   | "nlocs" :: ps => (parseNats ps).map callNLocs
   | "scan" :: ps => (parseNats ps).map callScan
+  | "access" :: ps => (parseNats ps).map callAccess
+  | "names" :: ps => (parseNats ps).map callNames
+  | "gather" :: ps => (parseNats ps).map callGather
   | _ => none
 
 def main : IO Unit := mainLoop openMachine call
